@@ -216,7 +216,7 @@ def synth_row(row: str):
                 return None
             words.append(g)
             if "(" in t.replace("(?", ""):
-                key_known = False
+                key_known = key_known and has_star  # a literal alternative is made non-capturing only with '*'; the key is then the placeholders' words
     if "<" in r:
         key_known = False
     return " ".join(words), (tuple(key) if key_known else None)
